@@ -51,7 +51,10 @@ var c08Msgs = func() [][]byte {
 	bad4 := append([]byte(nil), msgs[3]...)
 	bad4 = bad4[:len(bad4)-1]
 	bad4[2], bad4[3] = byte((len(bad4)-20)>>8), byte(len(bad4)-20)
-	return append(msgs, bad1, bad2, bad3, bad4)
+	// an attribute whose length is one of the three values that wrap to 0 when padded in 16 bits
+	bad5 := append([]byte(nil), msgs[1]...)
+	bad5[22], bad5[23] = 0xFF, 0xFE
+	return append(msgs, bad1, bad2, bad3, bad4, bad5)
 }()
 
 var c08DecodeNames = []string{"Decode(data,m)", "Write", "UnmarshalBinary", "ReadFrom", "CloneTo", "ReadFrom(segmented stream: 20 | 10 | rest)", "ReadFrom(zero-length datagram)", "GobDecode", "Write; drop the first attribute; Encode in place", "Write; change the first attribute's type and shorten the last value in place; Encode",
